@@ -78,6 +78,8 @@ def _execute(sc, flavour: str, delivery: t.Optional[dict], seed: int = 0):
     srv = peers.RpcServer({ECHO_IF: _handler(sc)}, drive.stub_acceptor_factory(cfg) if auth else None,
                           {"sec_addr": "1" * (sc[2] - 1) if sc[2] else ""})
     world.add_route("dc", 135, srv)
+    if delivery and delivery.get("fd_base"):
+        world.fd_base = int(delivery["fd_base"])  # the process already holds that many descriptors: the socket's number lies above FD_SETSIZE
     world.deliveries = [delivery]
     ctxs = _contexts(sc)
     ap = "negotiate" if auth else None
@@ -240,13 +242,13 @@ class C14(common.Check):
             "with/without auth token; alter_context_resp with token; response with stub 0..5000 (clear and sealed); fault. "
             "Delivery: every partition into <=3 chunks (every pair of cut offsets) for replies <=256 bytes, all single cuts and "
             "header x body cuts for larger ones, PRNG finer partitions, EOF / RST at every byte offset (prefix whole and bytewise), "
-            "stall; end of stream right after the complete previous message, i.e. before the client writes its next PDU (must end with an error, not spin or block); pairs of async connections in flight at once with every reply cut at the header boundary. Non-trivial = the delivery differs from one-piece (>=1 cut or an injected end); distinct = distinct "
+            "stall; the same on a socket whose descriptor number lies above FD_SETSIZE (a process holding > 1000 descriptors); end of stream right after the complete previous message, i.e. before the client writes its next PDU (must end with an error, not spin or block); pairs of async connections in flight at once with every reply cut at the header boundary. Non-trivial = the delivery differs from one-piece (>=1 cut or an injected end); distinct = distinct "
             "(scenario, flavour, delivery) tuple.")
     components = {"client": "real (SyncRpcClient, AsyncRpcClient, asyncio.streams, PDU codecs)", "peer": "model (ref.rpce RpcServer)",
                   "security context": "stub (StubCtx) where auth is on", "transport": "simulated (SimSocket / SimTransport on SimLoop)"}
     assumptions = ["TCP delivers bytes in order; segment boundaries and stream end are arbitrary",
                    "a sync read that can never complete is reported as 'blocks' (violation only after EOF/RST, never for a silent open peer)"]
-    required_fired = ("seg", "seg_in_header", "eof", "rst", "stall", "pairs", "gap", "clock_jump", "close_right_after_complete_reply", "closed_before_next_request")
+    required_fired = ("seg", "seg_in_header", "eof", "rst", "stall", "pairs", "gap", "clock_jump", "close_right_after_complete_reply", "closed_before_next_request", "descriptor_above_fd_setsize")
 
     def exhaustive(self, tier):
         return True
@@ -314,6 +316,13 @@ class C14(common.Check):
                     for a in sorted({0, 1, 15, 16, 17, max(1, n // 2), n - 1}):
                         if 0 <= a < n:
                             out.append([si, fl, "eofafter", a, 0])
+                # a process that already holds more than a thousand descriptors: the connection's socket gets a number above FD_SETSIZE
+                # (select() cannot watch it, poll / epoll can); one-piece and single-cut deliveries, stream end
+                if fl != "async":
+                    for a in (0, 1, 16, max(1, n // 2)):
+                        if a < n:
+                            out.append([si, fl, "manyfds", a, 0])
+                    out.append([si, fl, "manyfds", 17 % n, 1])
                 # the peer closes right after the complete PREVIOUS message of the conversation (bind_ack, alter_context_resp): the end of
                 # stream is already there when the client writes its next PDU; that exchange must end with an error
                 if _target_msg(sc) >= 1:
@@ -357,6 +366,12 @@ class C14(common.Check):
             d = {"eof_at": [tm, n]}
             if a:
                 d.update({"mode": "cuts", "cuts": {str(tm): [a]}})
+        elif mode == "manyfds":
+            d = {"fd_base": 1100}
+            if a:
+                d.update({"mode": "cuts", "cuts": {str(tm): [a]}})
+            if b:
+                d["eof_at"] = [tm, a]
         elif mode == "eofbefore":
             d = {"eof_at": [tm - 1, 1 << 30]}
             if a:
@@ -376,7 +391,18 @@ class C14(common.Check):
             probes["pause_between_segments" if mode == "gap" else "wall_clock_step_while_pending"] = 1
         if mode == "eofafter":
             probes["close_right_after_complete_reply"] = 1
-        if mode in ("cuts", "bytewise", "rand", "gap", "clockjump", "eofafter"):
+        if mode == "manyfds":
+            probes["descriptor_above_fd_setsize"] = 1
+            if b:
+                if out.kind != "raise" or isinstance(out.exc, ValueError) and "filedescriptor" in str(out.exc):
+                    kind, frame = drive.exc_sig(out)
+                    viol = common.violation("C14", "stream-end", fl, kind if out.kind != "ok" else "returned", frame, "descriptor-above-fd-setsize",
+                                            f"scenario={sc} eof after {a}/{n} bytes on a socket whose descriptor is 1100: outcome {out.brief()} {out.exc!r}")
+            elif not out.same_as(base):
+                kind, frame = drive.exc_sig(out)
+                viol = common.violation("C14", "reassembly", fl, kind, frame, "descriptor-above-fd-setsize",
+                                        f"scenario={sc} delivery={d}: one-piece outcome {base.brief()} but got {out.brief()} {out.exc!r} (the socket's descriptor number is 1100)")
+        elif mode in ("cuts", "bytewise", "rand", "gap", "clockjump", "eofafter"):
             if not out.same_as(base):
                 kind, frame = drive.exc_sig(out)
                 cond = ("pause-" if mode == "gap" else "clock-step-" if mode == "clockjump" else "closed-after-" if mode == "eofafter" else "") + ("header-split" if world.stats.get("seg_in_header") else "body-split")
